@@ -285,3 +285,371 @@ Proof.
     apply str_eqb_neq in E. destruct (H t Ht E) as [H1 H2]. rewrite H1. cbn [andb].
     destruct (to t) as [[[|] id]|]; try reflexivity. specialize (H2 _ eq_refl). discriminate H2.
 Qed.
+
+(** ** B. C09: renaming the blank nodes *)
+
+(** blank-node identifiers are the strings that start with "_:" (QUIRK Q5) *)
+Definition bn_pref (s : str) : bool := prefixb (Str "_:") s.
+
+(** a renaming of blank-node labels: "_:"-strings to "_:"-strings, injectively *)
+Record bn_renaming (sg : str -> str) : Prop := {
+  ren_marked : forall s, bn_pref s = true -> bn_pref (sg s) = true;
+  ren_inj : forall a b, bn_pref a = true -> bn_pref b = true -> sg a = sg b -> a = b }.
+
+Section Rename.
+  Variable sg : str -> str.
+
+  (** on identifier strings: blank-node labels renamed, everything else fixed *)
+  Definition rid (s : str) : str := if bn_pref s then sg s else s.
+
+  Definition rename_node (n : node) : node :=
+    match nk n with KBnode => Node KBnode (sg (nid n)) | KIri => n end.
+  Definition rename_obj (o : obj) : obj :=
+    match o with ON n => ON (rename_node n) | OL c d => OL c d end.
+  Definition rename_triple (t : triple) : triple := T (rename_node (ts t)) (tp t) (rename_obj (to t)).
+  Definition rename_graph (g : graph) : graph := map rename_triple g.
+  Definition rename_insts (I : insts) : insts := map (fun ie : str * list str => (rid (fst ie), snd ie)) I.
+
+  (** side conditions on the graph, triple by triple:
+      - [marked_node]: the kind of a node can be read off its identifier
+        (blank nodes start with "_:", IRIs do not) -- true of every
+        yielder-produced graph, and needed because the instance dictionary is
+        keyed by the bare string;
+      - [class_obj_ok]: the object of a typing triple is not a blank node (a
+        blank-node CLASS has a shape label computed from the label text) *)
+  Definition marked_node (n : node) : bool :=
+    match nk n with KBnode => bn_pref (nid n) | KIri => negb (bn_pref (nid n)) end.
+  Definition marked_triple (t : triple) : bool :=
+    marked_node (ts t) && match to t with ON o => marked_node o | OL _ _ => true end.
+  Definition class_obj_ok (tau : str) (t : triple) : bool :=
+    negb (str_eqb (tp t) tau) || match to t with ON (Node KBnode _) => false | _ => true end.
+  Definition rename_ok (tau : str) (t : triple) : bool := marked_triple t && class_obj_ok tau t.
+  Definition rename_dom (tau : str) (g : graph) : bool := forallb (rename_ok tau) g.
+
+  Hypothesis Hsg : bn_renaming sg.
+
+  Lemma rid_pref s : bn_pref (rid s) = bn_pref s.
+  Proof. unfold rid. destruct (bn_pref s) eqn:E; [apply (ren_marked sg Hsg); exact E | exact E]. Qed.
+
+  Lemma rid_inj a b : rid a = rid b -> a = b.
+  Proof.
+    intros H. pose proof (rid_pref a) as Pa. pose proof (rid_pref b) as Pb. rewrite H in Pa.
+    unfold rid in H. destruct (bn_pref a) eqn:Ea, (bn_pref b) eqn:Eb; try congruence.
+    apply (ren_inj sg Hsg); assumption.
+  Qed.
+
+  Lemma str_eqb_rid a b : str_eqb (rid a) (rid b) = str_eqb a b.
+  Proof.
+    destruct (str_eqb a b) eqn:E.
+    - apply str_eqb_eq in E. subst. apply str_eqb_refl.
+    - apply str_eqb_neq. apply str_eqb_neq in E. intros H. apply E, rid_inj, H.
+  Qed.
+
+  Lemma rid_fixed s : bn_pref s = false -> rid s = s.
+  Proof. unfold rid. intros ->. reflexivity. Qed.
+
+  Lemma nid_rename_node n : marked_node n = true -> nid (rename_node n) = rid (nid n).
+  Proof.
+    unfold marked_node, rename_node, rid. destruct (nk n); intros H.
+    - apply negb_true_iff in H. rewrite H. reflexivity.
+    - rewrite H. reflexivity.
+  Qed.
+
+  Lemma nk_rename_node n : nk (rename_node n) = nk n.
+  Proof. unfold rename_node. destruct (nk n) eqn:E; [exact E | reflexivity]. Qed.
+
+  Lemma elem_type_rename n : elem_type (rename_node n) = elem_type n.
+  Proof. unfold elem_type. rewrite nk_rename_node. reflexivity. Qed.
+
+  Lemma rename_node_iri n : nk n = KIri -> rename_node n = n.
+  Proof. unfold rename_node. intros ->. reflexivity. Qed.
+
+  (** *** the dictionary *)
+  Lemma dget_rename_insts (I : insts) i : dget (rename_insts I) (rid i) = dget I i.
+  Proof.
+    induction I as [|[k v] I IH]; [reflexivity|]. cbn [rename_insts map dget fst snd].
+    rewrite str_eqb_rid. destruct (str_eqb i k); [reflexivity | exact IH].
+  Qed.
+
+  Lemma dmem_rename_insts (I : insts) i : dmem (rename_insts I) (rid i) = dmem I i.
+  Proof. unfold dmem. rewrite dget_rename_insts. reflexivity. Qed.
+
+  Lemma classes_of_rename I i : classes_of (rename_insts I) (rid i) = classes_of I i.
+  Proof. unfold classes_of. rewrite dget_rename_insts. reflexivity. Qed.
+
+  Lemma shape_labels_rename I i : shape_labels (rename_insts I) (rid i) = shape_labels I i.
+  Proof. unfold shape_labels. rewrite classes_of_rename. reflexivity. Qed.
+
+  Lemma dset_rename_insts (I : insts) k v : rename_insts (dset I k v) = dset (rename_insts I) (rid k) v.
+  Proof.
+    induction I as [|[k' v'] I IH]; [reflexivity|]. cbn [rename_insts map dset fst snd].
+    rewrite str_eqb_rid. destruct (str_eqb k k'); [reflexivity|].
+    cbn [map fst snd]. f_equal. exact IH.
+  Qed.
+
+  Lemma dupd_rename_insts (I : insts) k dflt f :
+    rename_insts (dupd I k dflt f) = dupd (rename_insts I) (rid k) dflt f.
+  Proof. unfold dupd. rewrite dget_rename_insts. destruct (dget I k); apply dset_rename_insts. Qed.
+
+  Lemma dkeys_rename_insts (I : insts) : dkeys (rename_insts I) = map rid (dkeys I).
+  Proof. unfold dkeys, rename_insts. rewrite !map_map. reflexivity. Qed.
+
+  Lemma NoDup_rename_insts (I : insts) : NoDup (dkeys I) -> NoDup (dkeys (rename_insts I)).
+  Proof.
+    rewrite dkeys_rename_insts. intros H. induction H as [|x l Hx _ IH]; [constructor|].
+    cbn [map]. constructor; [|exact IH]. intros Hin. apply in_map_iff in Hin. destruct Hin as [y [E Hy]].
+    apply rid_inj in E. subst y. contradiction.
+  Qed.
+
+  Lemma snd_rename_insts (I : insts) : map snd (rename_insts I) = map snd I.
+  Proof. unfold rename_insts. rewrite map_map. reflexivity. Qed.
+
+  Theorem class_count_rename (I : insts) c : class_count (rename_insts I) c = class_count I c.
+  Proof. rewrite !class_count_concat, snd_rename_insts. reflexivity. Qed.
+
+  Lemma class_keys_rename targets (I : insts) : class_keys targets (rename_insts I) = class_keys targets I.
+  Proof. unfold class_keys. rewrite snd_rename_insts. reflexivity. Qed.
+
+  (** *** the tracker *)
+  Lemma relevant_rename tau m t : relevant tau m (rename_triple t) = relevant tau m t.
+  Proof.
+    unfold relevant. cbn [rename_triple tp to]. destruct m as [|l]; [reflexivity|]. f_equal.
+    destruct (to t) as [[[|] id]|]; reflexivity.
+  Qed.
+
+  Lemma rename_ok_parts tau t :
+    rename_ok tau t = true ->
+    nid (ts (rename_triple t)) = rid (nid (ts t)) /\
+    (forall o, to t = ON o -> nid (rename_node o) = rid (nid o)) /\
+    (forall o, to t = ON o -> str_eqb (tp t) tau = true -> rename_node o = o /\ bn_pref (nid o) = false).
+  Proof.
+    unfold rename_ok, marked_triple, class_obj_ok. intros H. apply andb_true_iff in H. destruct H as [H1 H2].
+    apply andb_true_iff in H1. destruct H1 as [Hs Ho]. split; [|split].
+    - cbn [rename_triple ts]. apply nid_rename_node. exact Hs.
+    - intros o Eo. rewrite Eo in Ho. apply nid_rename_node. exact Ho.
+    - intros o Eo Et. rewrite Eo in Ho, H2. rewrite Et in H2. cbn [negb orb] in H2.
+      destruct o as [[|] id]; [|discriminate H2]. split; [reflexivity|].
+      unfold marked_node in Ho. cbn [nk nid] in *. apply negb_true_iff in Ho. exact Ho.
+  Qed.
+
+  Definition map_inl {A B E} (f : A -> B) (x : A + E) : B + E :=
+    match x with inl a => inl (f a) | inr e => inr e end.
+
+  Lemma track_plain_rename tau m g : forall d,
+    forallb (rename_ok tau) g = true ->
+    track_plain tau m (rename_graph g) (rename_insts d) = map_inl rename_insts (track_plain tau m g d).
+  Proof.
+    induction g as [|t g IH]; intros d Hg; [reflexivity|].
+    cbn [forallb] in Hg. apply andb_true_iff in Hg. destruct Hg as [Ht Hg].
+    cbn [rename_graph map track_plain]. rewrite relevant_rename. destruct (relevant tau m t) eqn:Hr.
+    - unfold annotate. cbn [rename_triple to ts]. destruct (to t) as [o|l dt] eqn:Eo; [|reflexivity].
+      cbn [rename_obj]. destruct (rename_ok_parts tau t Ht) as (A & _ & B).
+      assert (Et : str_eqb (tp t) tau = true) by (unfold relevant in Hr; apply andb_true_iff in Hr; apply Hr).
+      destruct (B o Eo Et) as [B1 _]. rewrite B1. cbn [rename_triple ts] in A. rewrite A.
+      rewrite <- dupd_rename_insts. apply (IH _ Hg).
+    - apply (IH _ Hg).
+  Qed.
+
+  Lemma track_cap_rename tau m cap nt g : forall d st,
+    forallb (rename_ok tau) g = true ->
+    track_cap tau m cap nt (rename_graph g) (rename_insts d) st =
+    map_inl rename_insts (track_cap tau m cap nt g d st).
+  Proof.
+    induction g as [|t g IH]; intros d st Hg; [reflexivity|].
+    cbn [forallb] in Hg. apply andb_true_iff in Hg. destruct Hg as [Ht Hg].
+    destruct (rename_ok_parts tau t Ht) as (A & _ & B). cbn [rename_triple ts] in A.
+    cbn [rename_graph map track_cap].
+    assert (Ec : cap_allows tau cap st (rename_triple t) = cap_allows tau cap st t).
+    { unfold cap_allows. cbn [rename_triple tp to]. destruct (str_eqb (tp t) tau) eqn:Et; [|reflexivity].
+      cbn [negb]. destruct (to t) as [o|l dt] eqn:Eo; [|reflexivity]. cbn [rename_obj].
+      destruct (B o eq_refl eq_refl) as [B1 _]. rewrite B1. reflexivity. }
+    rewrite Ec. destruct (cap_allows tau cap st t) as [[|]|]; [|apply (IH _ _ Hg) | reflexivity].
+    rewrite relevant_rename. destruct (relevant tau m t) eqn:Hr; [|apply (IH _ _ Hg)].
+    assert (Et : str_eqb (tp t) tau = true) by (unfold relevant in Hr; apply andb_true_iff in Hr; apply Hr).
+    cbn [rename_triple to ts]. destruct (to t) as [o|l dt] eqn:Eo; [|reflexivity]. cbn [rename_obj].
+    destruct (B o eq_refl Et) as [B1 _]. rewrite B1, A, <- dupd_rename_insts.
+    destruct nt as [n|].
+    - match goal with |- context [if ?b then _ else _] => destruct b end; [reflexivity | apply (IH _ _ Hg)].
+    - apply (IH _ _ Hg).
+  Qed.
+
+  (** the tracker commutes with the renaming, cap or not, failures included *)
+  Theorem track_rename tau m cap g :
+    rename_dom tau g = true ->
+    track tau m cap (rename_graph g) = map_inl rename_insts (track tau m cap g).
+  Proof.
+    intros Hg. unfold track. destruct (cap <=? 0)%Z.
+    - apply (track_plain_rename tau m g [] Hg).
+    - apply (track_cap_rename tau m _ _ g [] _ Hg).
+  Qed.
+
+  (** *** the counts *)
+
+  (** type keys under the instantiation property are node identifiers and are
+      renamed with the nodes; every other type key (node kind, datatype,
+      shape label) is left alone *)
+  Definition rk (tau p k : str) : str := if str_eqb p tau then rid k else k.
+
+  Lemma rk_inj tau p a b : rk tau p a = rk tau p b -> a = b.
+  Proof. unfold rk. destruct (str_eqb p tau); [apply rid_inj | auto]. Qed.
+
+  Lemma shape_name_not_bn ns c : bn_pref (shape_name ns c) = false.
+  Proof.
+    unfold shape_name. destruct (prefixb (Str "@") c) eqn:E1.
+    - apply prefixb_spec in E1. destruct E1 as [r ->]. reflexivity.
+    - destruct (prefixb (Str "<") c && suffixb (Str ">") c); reflexivity.
+  Qed.
+
+  Lemma map_rid_shape_labels I i : map rid (shape_labels I i) = shape_labels I i.
+  Proof.
+    unfold shape_labels. rewrite map_map. apply map_ext. intros c. apply rid_fixed, shape_name_not_bn.
+  Qed.
+
+  Lemma contrib_rename dir tau I t i p :
+    rename_ok tau t = true ->
+    contrib dir tau (rename_insts I) (rename_triple t) (rid i) p = map (rk tau p) (contrib dir tau I t i p).
+  Proof.
+    intros Ht. destruct (rename_ok_parts tau t Ht) as (A & B & D). unfold contrib. destruct dir.
+    - rewrite A, str_eqb_rid. cbn [rename_triple tp].
+      destruct (str_eqb (nid (ts t)) i && str_eqb (tp t) p) eqn:E; [|reflexivity].
+      apply andb_true_iff in E. destruct E as [_ E]. apply str_eqb_eq in E. subst p.
+      unfold keys_direct, rk. cbn [rename_triple tp to]. destruct (to t) as [o|l dt] eqn:Eo; cbn [rename_obj].
+      + destruct (str_eqb (tp t) tau) eqn:Et.
+        * destruct (D o eq_refl eq_refl) as [D1 D2]. rewrite D1. cbn [map]. rewrite (rid_fixed _ D2).
+          f_equal. destruct (str_eqb (nid o) c_IRI_ELEM_TYPE || str_eqb (nid o) c_BNODE_ELEM_TYPE); [|reflexivity].
+          rewrite map_rid_shape_labels. rewrite <- (rid_fixed _ D2) at 1. apply shape_labels_rename.
+        * rewrite map_id, elem_type_rename, (B o eq_refl), shape_labels_rename. reflexivity.
+      + destruct (str_eqb (tp t) tau); [reflexivity|]. rewrite map_id. reflexivity.
+    - cbn [rename_triple to tp]. destruct (to t) as [o|l dt] eqn:Eo; cbn [rename_obj]; [|reflexivity].
+      rewrite (B o eq_refl), str_eqb_rid.
+      destruct (str_eqb (nid o) i && str_eqb (tp t) p) eqn:E; [|reflexivity].
+      apply andb_true_iff in E. destruct E as [_ E]. apply str_eqb_eq in E. subst p.
+      unfold keys_inverse, rk. cbn [rename_triple tp ts] in *. rewrite A, nk_rename_node.
+      destruct (str_eqb (tp t) tau) eqn:Et.
+      + cbn [map]. f_equal.
+        assert (Es : str_eqb (rid (nid (ts t))) c_IRI_ELEM_TYPE = str_eqb (nid (ts t)) c_IRI_ELEM_TYPE).
+        { rewrite <- (rid_fixed c_IRI_ELEM_TYPE) at 1 by reflexivity. apply str_eqb_rid. }
+        rewrite Es. destruct (str_eqb (nid (ts t)) c_IRI_ELEM_TYPE); [|reflexivity].
+        rewrite map_rid_shape_labels. apply shape_labels_rename.
+      + rewrite map_id. f_equal; [apply elem_type_rename|].
+        destruct (nk (ts t)); [apply shape_labels_rename | reflexivity].
+  Qed.
+
+  Lemma count_in_map_inj (f : str -> str) k l :
+    (forall a b, f a = f b -> a = b) -> count_in (f k) (map f l) = count_in k l.
+  Proof.
+    intros Hf. induction l as [|x l IH]; [reflexivity|]. cbn [map count_in]. rewrite IH. f_equal.
+    destruct (str_eqb k x) eqn:E.
+    - apply str_eqb_eq in E. subst. rewrite str_eqb_refl. reflexivity.
+    - apply str_eqb_neq in E. assert (E' : str_eqb (f k) (f x) = false) by (apply str_eqb_neq; intros H; apply E, Hf, H).
+      rewrite E'. reflexivity.
+  Qed.
+
+  Theorem cnt_rename dir tau I g i p k :
+    rename_dom tau g = true ->
+    cnt dir tau (rename_insts I) (rename_graph g) (rid i) p (rk tau p k) = cnt dir tau I g i p k.
+  Proof.
+    unfold rename_dom. induction g as [|t g IH]; intros Hg; [reflexivity|].
+    cbn [forallb] in Hg. apply andb_true_iff in Hg. destruct Hg as [Ht Hg].
+    cbn [rename_graph map]. rewrite !cnt_cons. rewrite (contrib_rename dir tau I t i p Ht).
+    rewrite (count_in_map_inj (rk tau p) k _ (rk_inj tau p)). f_equal. apply IH, Hg.
+  Qed.
+
+  Theorem occ_rename dir tau I g c p k card :
+    rename_dom tau g = true ->
+    occ dir tau (rename_insts I) (rename_graph g) c p (rk tau p k) card = occ dir tau I g c p k card.
+  Proof.
+    intros Hg. unfold occ, rename_insts. rewrite map_map. apply sumN_map_ext. intros [i cs] _. cbn [fst snd].
+    change (map (fun ie : str * list str => (rid (fst ie), snd ie)) I) with (rename_insts I).
+    rewrite (cnt_rename dir tau I g i p k Hg). reflexivity.
+  Qed.
+
+  (** a type key with a positive count in the renamed graph is a renamed key *)
+  Lemma cnt_rename_pos_inv dir tau I g i p k' :
+    rename_dom tau g = true ->
+    0 < cnt dir tau (rename_insts I) (rename_graph g) (rid i) p k' -> exists k, k' = rk tau p k.
+  Proof.
+    intros Hg H. unfold cnt in H. apply sumN_pos_ex in H. destruct H as [x [Hx Hpos]].
+    apply in_map_iff in Hx. destruct Hx as [t' [<- Ht']]. unfold rename_graph in Ht'.
+    apply in_map_iff in Ht'. destruct Ht' as [t [<- Ht]].
+    unfold rename_dom in Hg. rewrite forallb_forall in Hg.
+    rewrite (contrib_rename dir tau I t i p (Hg t Ht)) in Hpos. apply In_count_in in Hpos.
+    apply in_map_iff in Hpos. destruct Hpos as [k [E _]]. exists k. symmetry. exact E.
+  Qed.
+
+  Lemma occ_rename_pos_inv dir tau I g c p k' card :
+    rename_dom tau g = true ->
+    0 < occ dir tau (rename_insts I) (rename_graph g) c p k' card -> exists k, k' = rk tau p k.
+  Proof.
+    intros Hg H. assert (H' : exists card, 0 < occ dir tau (rename_insts I) (rename_graph g) c p k' card) by eauto.
+    apply occ_pos_iff in H'. destruct H' as (i' & cs & Hin & _ & Hc).
+    unfold rename_insts in Hin. apply in_map_iff in Hin. destruct Hin as [[i cs'] [E _]]. cbn [fst snd] in E.
+    injection E as <- _. apply (cnt_rename_pos_inv dir tau I g i p k' Hg Hc).
+  Qed.
+
+  (** *** the feature pass fails on the renamed graph iff on the graph *)
+  Lemma bad_triple_rename tau I t :
+    rename_ok tau t = true -> (bad_triple tau (rename_insts I) (rename_triple t) <-> bad_triple tau I t).
+  Proof.
+    intros Ht. destruct (rename_ok_parts tau t Ht) as (A & _ & _). unfold bad_triple.
+    rewrite A, dmem_rename_insts. cbn [rename_triple tp to].
+    assert (E : is_node (rename_obj (to t)) = is_node (to t)) by (destruct (to t); reflexivity).
+    rewrite E. tauto.
+  Qed.
+
+  Lemma annotate_all_ok_rename tau inv I g :
+    rename_dom tau g = true ->
+    ((exists ID, annotate_all tau inv (rename_graph g) (adapt (rename_insts I)) = inl ID) <->
+     (exists ID, annotate_all tau inv g (adapt I) = inl ID)).
+  Proof.
+    intros Hg. unfold rename_dom in Hg. rewrite forallb_forall in Hg. rewrite !annotate_all_ok_iff. split.
+    - intros H t Ht Hb. apply (H (rename_triple t)); [apply in_map; exact Ht|].
+      apply bad_triple_rename; [apply Hg; exact Ht | exact Hb].
+    - intros H t' Ht' Hb. unfold rename_graph in Ht'. apply in_map_iff in Ht'. destruct Ht' as [t [<- Ht]].
+      apply (H t Ht). apply (bad_triple_rename tau I t (Hg t Ht)). exact Hb.
+  Qed.
+
+  (** *** the class profile, profile-level cleaning off *)
+  Theorem profile_rename cfg (I : insts) g P C ID :
+    NoDup (dkeys I) -> rename_dom (p_tau cfg) g = true -> p_remove_empty cfg = false ->
+    profile cfg I g = inl (P, C, ID) ->
+    exists P' ID',
+      profile cfg (rename_insts I) (rename_graph g) = inl (P', C, ID') /\
+      dkeys P' = dkeys P /\
+      forall c e, dget P c = Some e ->
+        exists e', dget P' c = Some e' /\
+          forall p k card,
+            plook (c_direct e') p (rk (p_tau cfg) p k) card = plook (c_direct e) p k card /\
+            plook (c_inverse e') p (rk (p_tau cfg) p k) card = plook (c_inverse e) p k card.
+  Proof.
+    intros Hn Hg Hre HP. rewrite profile_result in HP. rewrite Hre in HP.
+    destruct (annotate_all (p_tau cfg) (p_inverse cfg) g (adapt I)) as [ID0|] eqn:HA; [|discriminate HP].
+    destruct (raw_profile cfg I ID0) as [P1 C0] eqn:HR. injection HP as <- <- <-.
+    destruct (proj2 (annotate_all_ok_rename (p_tau cfg) (p_inverse cfg) I g Hg) (ex_intro _ _ HA)) as [ID' HA'].
+    destruct (raw_profile cfg (rename_insts I) ID') as [P1' C0'] eqn:HR'.
+    pose proof (NoDup_rename_insts I Hn) as Hn'.
+    destruct (profile_counts_char cfg I g ID0 P1 C0 Hn HA HR) as (K1 & K2 & K3 & K4 & K5).
+    destruct (profile_counts_char cfg (rename_insts I) (rename_graph g) ID' P1' C0' Hn' HA' HR')
+      as (K1' & K2' & K3' & K4' & K5').
+    rewrite class_keys_rename in K1'.
+    assert (EC : C0' = C0).
+    { unfold raw_profile in HR, HR'.
+      destruct (init_annotated I (init_targets (targets_of cfg))) as [Pa Ca] eqn:Ea.
+      destruct (init_annotated (rename_insts I) (init_targets (targets_of cfg))) as [Pb Cb] eqn:Eb.
+      injection HR as _ <-. injection HR' as _ <-.
+      rewrite init_annotated_fold in Ea, Eb. rewrite snd_rename_insts in Eb. congruence. }
+    exists P1', ID'. split; [|split].
+    - rewrite profile_result, Hre, HA', HR', EC. reflexivity.
+    - congruence.
+    - intros c e He.
+      assert (Hin : In c (dkeys P1')).
+      { rewrite K1', <- K1. apply dmem_In. unfold dmem. rewrite He. reflexivity. }
+      apply In_dkeys_dget in Hin. destruct Hin as [e' [He' _]]. exists e'. split; [exact He'|].
+      intros p k card. destruct (K5 c e He) as (D1 & _ & D3). destruct (K5' c e' He') as (D1' & _ & D3').
+      split.
+      + rewrite D1, D1'. apply occ_rename, Hg.
+      + destruct (p_inverse cfg).
+        * rewrite (proj1 D3), (proj1 D3'). apply occ_rename, Hg.
+        * rewrite D3, D3'. reflexivity.
+  Qed.
+End Rename.
